@@ -24,7 +24,7 @@ pub static PROP: PropDef = PropDef {
         "simulated transport, see C01",
     ],
     tape_len: 160,
-    random_cases: |t| t.pick(100_000, 3_000_000),
+    random_cases: |t| t.pick(400_000, 30_000_000),
     run_tape,
     exhaustive: Some(exhaustive),
     run_direct: Some(run_direct),
@@ -176,7 +176,35 @@ struct Obs {
     driver: Option<ConnInfo>,
 }
 
-async fn server_app(net: Net, o: Shared<Obs>, sp: Spawner) {
+/// recv_data* then recv_trailers on `$s` (a whole request stream or the receive half of a split one); `$bail` runs
+/// when recv_data fails
+macro_rules! body_and_trailers {
+    ($s:expr, $o:expr, $bail:expr) => {{
+        loop {
+            match $s.recv_data().await {
+                Ok(Some(mut b)) => {
+                    use bytes::Buf;
+                    let c = b.copy_to_bytes(b.remaining());
+                    $o.borrow_mut().body.extend_from_slice(&c);
+                }
+                Ok(None) => {
+                    $o.borrow_mut().body_end = Some(Ok(()));
+                    break;
+                }
+                Err(e) => {
+                    $o.borrow_mut().body_end = Some(Err(err_info(&e)));
+                    $bail
+                }
+            }
+        }
+        match $s.recv_trailers().await {
+            Ok(t) => $o.borrow_mut().trailers = Some(Ok(t.is_some())),
+            Err(e) => $o.borrow_mut().trailers = Some(Err(err_info(&e))),
+        }
+    }};
+}
+
+async fn server_app(net: Net, o: Shared<Obs>, sp: Spawner, split: bool) {
     let mut conn: ServerConn = match h3::server::builder().send_grease(false).build(net.conn(Side::Server)).await {
         Ok(c) => c,
         Err(e) => {
@@ -199,27 +227,18 @@ async fn server_app(net: Net, o: Shared<Obs>, sp: Spawner) {
                             return;
                         }
                     };
-                    loop {
-                        match s.recv_data().await {
-                            Ok(Some(mut b)) => {
-                                use bytes::Buf;
-                                let c = b.copy_to_bytes(b.remaining());
-                                o2.borrow_mut().body.extend_from_slice(&c);
-                            }
-                            Ok(None) => {
-                                o2.borrow_mut().body_end = Some(Ok(()));
-                                break;
-                            }
-                            Err(e) => {
-                                o2.borrow_mut().body_end = Some(Err(err_info(&e)));
-                                return;
-                            }
-                        }
+                    if split {
+                        let (tx, mut rx) = s.split();
+                        body_and_trailers!(rx, o2, {
+                            std::future::pending::<()>().await;
+                        });
+                        std::future::pending::<()>().await;
+                        drop((tx, rx));
+                        return;
                     }
-                    match s.recv_trailers().await {
-                        Ok(t) => o2.borrow_mut().trailers = Some(Ok(t.is_some())),
-                        Err(e) => o2.borrow_mut().trailers = Some(Err(err_info(&e))),
-                    }
+                    body_and_trailers!(s, o2, {
+                        std::future::pending::<()>().await;
+                    });
                     // keep the stream alive: dropping it would send STOP_SENDING / FIN, irrelevant here
                     std::future::pending::<()>().await;
                 });
@@ -233,7 +252,7 @@ async fn server_app(net: Net, o: Shared<Obs>, sp: Spawner) {
     }
 }
 
-async fn client_app(net: Net, o: Shared<Obs>, sp: Spawner) {
+async fn client_app(net: Net, o: Shared<Obs>, sp: Spawner, split: bool) {
     let (conn, mut sr): (ClientConn, SendReq) = match h3::client::builder().send_grease(false).build(net.conn(Side::Client)).await {
         Ok(x) => x,
         Err(e) => {
@@ -255,6 +274,23 @@ async fn client_app(net: Net, o: Shared<Obs>, sp: Spawner) {
             return;
         }
     };
+    if split {
+        let (mut tx, mut rx) = s.split();
+        let _ = tx.finish().await;
+        match rx.recv_response().await {
+            Ok(_) => o.borrow_mut().head = Some(Ok(())),
+            Err(e) => {
+                o.borrow_mut().head = Some(Err(err_info(&e)));
+                std::future::pending::<()>().await;
+            }
+        }
+        body_and_trailers!(rx, o, {
+            std::future::pending::<()>().await;
+        });
+        std::future::pending::<()>().await;
+        drop((sr, tx, rx));
+        return;
+    }
     let _ = s.finish().await;
     match s.recv_response().await {
         Ok(_) => o.borrow_mut().head = Some(Ok(())),
@@ -263,34 +299,16 @@ async fn client_app(net: Net, o: Shared<Obs>, sp: Spawner) {
             std::future::pending::<()>().await;
         }
     }
-    loop {
-        match s.recv_data().await {
-            Ok(Some(mut b)) => {
-                use bytes::Buf;
-                let c = b.copy_to_bytes(b.remaining());
-                o.borrow_mut().body.extend_from_slice(&c);
-            }
-            Ok(None) => {
-                o.borrow_mut().body_end = Some(Ok(()));
-                break;
-            }
-            Err(e) => {
-                o.borrow_mut().body_end = Some(Err(err_info(&e)));
-                std::future::pending::<()>().await;
-            }
-        }
-    }
-    match s.recv_trailers().await {
-        Ok(t) => o.borrow_mut().trailers = Some(Ok(t.is_some())),
-        Err(e) => o.borrow_mut().trailers = Some(Err(err_info(&e))),
-    }
+    body_and_trailers!(s, o, {
+        std::future::pending::<()>().await;
+    });
     // keep handles (sr, s) alive: dropping the last SendRequest would close the connection
     std::future::pending::<()>().await;
     drop(sr);
 }
 
-fn case_json(server: bool, seq: &[Sym], ending: Ending, style: Style, sched: &[u16]) -> Value {
-    json!({"role": if server { "server" } else { "client" }, "seq": seq.iter().map(|s| format!("{s:?}")).collect::<Vec<_>>(), "ending": format!("{ending:?}"), "style": format!("{style:?}"), "sched": sched})
+fn case_json(server: bool, seq: &[Sym], ending: Ending, style: Style, sched: &[u16], split: bool) -> Value {
+    json!({"split": split, "role": if server { "server" } else { "client" }, "seq": seq.iter().map(|s| format!("{s:?}")).collect::<Vec<_>>(), "ending": format!("{ending:?}"), "style": format!("{style:?}"), "sched": sched})
 }
 
 fn err_matches(e: &ErrInfo, want: E) -> bool {
@@ -301,7 +319,7 @@ fn err_matches(e: &ErrInfo, want: E) -> bool {
     }
 }
 
-pub fn run_case(server: bool, seq: &[Sym], ending: Ending, style: Style, sched: &[u16], ctx: &mut Ctx) -> Verdict {
+pub fn run_case(server: bool, seq: &[Sym], ending: Ending, style: Style, sched: &[u16], split: bool, ctx: &mut Ctx) -> Verdict {
     ctx.eval();
     fastrand::seed(11);
     let net = Net::new();
@@ -312,9 +330,9 @@ pub fn run_case(server: bool, seq: &[Sym], ending: Ending, style: Style, sched: 
     let mut ex = Exec::new();
     let sp = ex.spawner.clone();
     if server {
-        ex.spawn("server", server_app(net.clone(), o.clone(), sp.clone()));
+        ex.spawn("server", server_app(net.clone(), o.clone(), sp.clone(), split));
     } else {
-        ex.spawn("client", client_app(net.clone(), o.clone(), sp.clone()));
+        ex.spawn("client", client_app(net.clone(), o.clone(), sp.clone(), split));
     }
     let mut ops = vec![PeerOp::OpenUni(0), PeerOp::Write(0, peer::control_preamble(&[]))];
     if server {
@@ -344,7 +362,7 @@ pub fn run_case(server: bool, seq: &[Sym], ending: Ending, style: Style, sched: 
     let end = ex.run(&net, &mut peer, &mut t, style, 200_000);
     let obs = o.borrow().clone();
     let case = || {
-        let mut c = case_json(server, seq, ending, style, sched);
+        let mut c = case_json(server, seq, ending, style, sched, split);
         c["observed"] = json!(format!("{obs:?}"));
         c["closes"] = json!(format!("{:?}", net.close_calls(h3_side)));
         c
@@ -508,8 +526,11 @@ pub fn run_case(server: bool, seq: &[Sym], ending: Ending, style: Style, sched: 
         ctx.class("trailers_delivered");
     }
     ctx.class(if server { "role_server" } else { "role_client" });
+    if split {
+        ctx.class("on_split_half");
+    }
     if invalid || (reaches_body && seq.len() >= 2) {
-        ctx.nontrivial(&(server, seq.to_vec(), ending, format!("{style:?}")));
+        ctx.nontrivial(&(server, seq.to_vec(), ending, format!("{style:?}"), split));
     }
     ctx.sample(|| case());
     Ok(())
@@ -545,8 +566,10 @@ fn exhaustive(ctx: &mut Ctx, shard: usize, nshards: usize) -> Verdict {
                 for ending in [Ending::Fin, Ending::Reset(0x10c), Ending::Open] {
                     for (k, style) in [Style::Eager, Style::Tiny, Style::Random].into_iter().enumerate() {
                         let sched = if style == Style::Random { prf_cells((code as u64) << 8 | (n as u64) << 4 | k as u64, 80) } else { Vec::new() };
-                        run_case(server, &seq, ending, style, &sched, ctx)?;
-                        count += 1;
+                        for split in [false, true] {
+                            run_case(server, &seq, ending, style, &sched, split, ctx)?;
+                            count += 1;
+                        }
                     }
                 }
             }
@@ -555,7 +578,7 @@ fn exhaustive(ctx: &mut Ctx, shard: usize, nshards: usize) -> Verdict {
     let _ = count;
     if shard == 0 {
         let per = |k: usize| (0..=maxn).map(|n| k.pow(n as u32) as u64).sum::<u64>();
-        ctx.subspace("all sequences up to the length bound x 3 endings x 3 schedule styles x 2 roles", (per(11) + per(10)) * 9);
+        ctx.subspace("all sequences up to the length bound x 3 endings x 3 schedule styles x 2 roles x whole stream / split() receive half", (per(11) + per(10)) * 18);
     }
     let _ = Tier::Quick;
     Ok(())
@@ -593,8 +616,9 @@ fn run_tape(tape: &[u16], ctx: &mut Ctx) -> Verdict {
         1 => Style::Tiny,
         _ => Style::Random,
     };
+    let split = t.chance(1, 3);
     let sched: Vec<u16> = tape[t.position().min(tape.len())..].to_vec();
-    run_case(server, &seq, ending, style, &sched, ctx)
+    run_case(server, &seq, ending, style, &sched, split, ctx)
 }
 
 fn parse_sym(s: &str) -> Option<Sym> {
@@ -619,7 +643,7 @@ fn run_direct(d: &Value, ctx: &mut Ctx) -> Verdict {
         _ => Style::Random,
     };
     let sched: Vec<u16> = d["sched"].as_array().map(|a| a.iter().map(|x| x.as_u64().unwrap_or(0) as u16).collect()).unwrap_or_default();
-    run_case(server, &seq, ending, style, &sched, ctx)
+    run_case(server, &seq, ending, style, &sched, d["split"].as_bool().unwrap_or(false), ctx)
 }
 
 pub fn _b(_: Bytes) {}
